@@ -50,7 +50,39 @@ def _add_reader(eng, args, kw, st, fr, k, node):
 def _divide_partial(eng, args, kw, st, fr, k, node):
     if "lazy" in kw:
         eng.oblige("wiring", "divide_outputs gets the processor's lazy flag", st, eng.truth(kw["lazy"]) == st.ghost["lazy"], node)
+    if "outputs" in kw:
+        comps = st.env["components"]
+        loaders = z3.Function("attr_loaders", V, V)(eng.to_v(comps))
+        q = z3.Const("out_q", V)
+        ct = CONTAINS
+        eng.oblige("wiring", "the divider of a multi-output plugin feeds only outputs that are not loaded from storage "
+                             "(a loaded output already has its loader as sender)", st,
+                   z3.ForAll([q], z3.Implies(ct(eng.to_v(kw["outputs"]), q), z3.Not(ct(loaders, q)))), node)
+    if "flow_freely" in kw:
+        # outputs exempt from flow control in lazy mode: (produced - required) united with the plugin's OTHER outputs, whether or
+        # not something downstream requires them (both outputs of a doubly used multi-output plugin must be able to flow)
+        ff = kw["flow_freely"]
+        env = st.env
+        dd = env.get("double_dependency")
+        sub = z3.Function("fn:Sub", V, V, V)
+        fset = z3.Function("fn:set", V, V)
+        want_dd = None
+        try:
+            want_dd = sub(fset(eng.to_v(eng_attr(eng, env["p"], "provides"))), fset(z3.Function("fn:strax.to_str_tuple", V, V)(eng.to_v(env["d"]))))
+        except Exception:  # noqa
+            pass
+        ok_shape = isinstance(ff, Opq) and z3.is_app(ff.t) and ff.t.decl().name() == "fn:BitOr" and isinstance(dd, Opq) \
+            and ff.t.arg(1).eq(dd.t) and ff is env.get("to_flow_freely")
+        eng.oblige("wiring", "the outputs exempt from flow control include ALL other outputs of the multi-output plugin", st,
+                   z3.BoolVal(bool(ok_shape)), node)
+        if want_dd is not None and isinstance(dd, Opq):
+            eng.oblige("wiring", "the other outputs of a multi-output plugin are its provides minus the output being wired", st,
+                       dd.t == want_dd, node)
     return k(Opq(eng.fresh("partial", "V")), st)
+
+
+def eng_attr(eng, v, name):
+    return Opq(z3.Function("attr_" + name, V, V)(eng.to_v(v)))
 
 
 def _store_mm(eng, st, obj, v, node):
